@@ -52,6 +52,29 @@ def check(ctx):
         check_config(ctx, ctx.facts(cfg), "" if cfg == "native" else "@" + cfg)
 
 
+def sb_guards(fs, idx):
+    """The three range tests of SparseBuilder::try_set among the facts fs, in any of their spellings: through the accessors
+    (is_full(), next_index(), universe()) or on what the accessors return (len == capacity(), the `next` field, data.len)."""
+    from pat import Or
+    lenlike = Or(Call(SB + "::len", Param(0)), SelfField("len"))
+    caplike = Or(Call(SB + "::capacity", Param(0)), Call(lambda n: n.endswith("Vector>::len") or n.endswith("::len"), SelfField("data", "low")))
+    nextlike = Or(Call(SB + "::next_index", Param(0)), SelfField("next"))
+    unilike = Or(Call(SB + "::universe", Param(0)), SelfField("data", "len"), Call(lambda n: n.endswith("::len"), SelfField("data")))
+    def not_full(f):
+        if f[0] == "bool" and f[2] is False and m(Call(SB + "::is_full", Param(0)), f[1]):
+            return True
+        if f[0] == "cmp" and f[1] == "Ne":
+            return (m(lenlike, f[2]) and m(caplike, f[3])) or (m(lenlike, f[3]) and m(caplike, f[2]))
+        if f[0] == "bool" and f[2] is False and isinstance(f[1], tuple) and f[1][:2] == ("bin", "Eq"):
+            return (m(lenlike, f[1][2]) and m(caplike, f[1][3])) or (m(lenlike, f[1][3]) and m(caplike, f[1][2]))
+        return False
+    g1 = any(not_full(f) for f in fs)
+    g2 = any(f[0] == "cmp" and ((f[1] == "Ge" and core(f[2]) == core(idx) and m(nextlike, f[3])) or (f[1] == "Le" and core(f[3]) == core(idx) and m(nextlike, f[2]))) for f in fs)
+    g3 = any(f[0] == "cmp" and ((f[1] == "Lt" and core(f[2]) == core(idx) and m(unilike, f[3])) or (f[1] == "Gt" and core(f[3]) == core(idx) and m(unilike, f[2]))) for f in fs)
+    return g1, g2, g3
+
+
+
 def check_config(ctx, F, tag):
     # "the vector built from the builder reports the accepted positions": From<RLBuilder> ends in SampleIndex::new, whose table the
     # queries of the built vector narrow their search with
@@ -170,9 +193,7 @@ def check_config(ctx, F, tag):
             fs = facts_at(b, bi)
             if cn == SB + "::set_unchecked":
                 idx = b.term_of_operand(t["args"][1])
-                g1 = any(f[0] == "bool" and f[2] is False and m(Call(SB + "::is_full", Param(0)), f[1]) for f in fs)
-                g2 = any(f[0] == "cmp" and f[1] == "Ge" and core(f[2]) == core(idx) and m(Call(SB + "::next_index", Param(0)), f[3]) for f in fs)
-                g3 = any(f[0] == "cmp" and f[1] == "Lt" and core(f[2]) == core(idx) and m(Call(SB + "::universe", Param(0)), f[3]) for f in fs)
+                g1, g2, g3 = sb_guards(fs, idx)
                 ctx.ob("C16.R2.unchecked-call-discharged", key + tag, where, g1 and g2 and g3, "guard-dominance",
                        "set_unchecked(%s) dominated by !is_full(): %s, index >= next_index(): %s, index < universe(): %s" % (tstr(idx), g1, g2, g3))
             elif cn == RB + "::set_run_unchecked":
@@ -197,9 +218,7 @@ def check_config(ctx, F, tag):
             fs = facts_at(b, bi)
             if fn.startswith(SB):
                 idx = ("param", 1, b.local_name(2))
-                g = [any(f[0] == "bool" and f[2] is False and m(Call(SB + "::is_full", Param(0)), f[1]) for f in fs),
-                     any(f[0] == "cmp" and f[1] == "Ge" and core(f[2]) == idx and m(Call(SB + "::next_index", Param(0)), f[3]) for f in fs),
-                     any(f[0] == "cmp" and f[1] == "Lt" and core(f[2]) == idx and m(Call(SB + "::universe", Param(0)), f[3]) for f in fs)]
+                g = list(sb_guards(fs, idx))
             else:
                 st_, ln = ("param", 1, b.local_name(2)), ("param", 2, b.local_name(3))
                 g = [any(f[0] == "cmp" and f[1] == "Ge" and core(f[2]) == st_ and m(Call(RB + "::len", Param(0)), f[3]) for f in fs),
@@ -217,9 +236,7 @@ def check_config(ctx, F, tag):
             fs = facts_at(b, bi)
             if fn.startswith(SB):
                 idx = ("param", 1, b.local_name(2))
-                g = [any(f[0] == "bool" and f[2] is False and m(Call(SB + "::is_full", Param(0)), f[1]) for f in fs),
-                     any(f[0] == "cmp" and f[1] == "Ge" and core(f[2]) == idx and m(Call(SB + "::next_index", Param(0)), f[3]) for f in fs),
-                     any(f[0] == "cmp" and f[1] == "Lt" and core(f[2]) == idx and m(Call(SB + "::universe", Param(0)), f[3]) for f in fs)]
+                g = list(sb_guards(fs, idx))
             else:
                 st_, ln = ("param", 1, b.local_name(2)), ("param", 2, b.local_name(3))
                 g = [any(f[0] == "cmp" and f[1] == "Ge" and core(f[2]) == st_ and m(Call(RB + "::len", Param(0)), f[3]) for f in fs),
